@@ -26,7 +26,8 @@ REQUIRED = {'mon:evaluate.checked': 50, 'mon:evaluate_at.checked': 50, 'mon:eval
             'mon:evaluate_circuit_outputs.checked': 50, 'mon:evaluate_full_circuit.checked': 50,
             'mon:get_truth_table.checked': 20, 'mon:get_gates_truth_table.checked': 20,
             'tables:operators': 1, 'tables:synthesis': 1, 'tables:arith': 1, 'tables:pattern': 1,
-            'tables:tseytin': 1, 'tables:converters': 1, 'tables:format_parse': 1, 'twin_checked': 20}
+            'tables:tseytin': 1, 'tables:converters': 1, 'tables:format_parse': 1, 'twin_checked': 20,
+            'edited_circuits': 20}
 EXHAUSTIVE_WHEN = {}
 
 CUR = {'ctx': None, 'case': None}
@@ -326,6 +327,22 @@ def check_case(case, ctx):
     except Exception as e:
         ctx.unexpected('evaluation entry points (twin)', e, CUR['case'])
     CUR['case'] = case
+    # the same through a circuit that was *reached by a mutation history* (public edits keep it well formed):
+    # stale-but-empty users lists, moved storage order, converted gates, retyped inputs
+    if case.get('edits', True):
+        try:
+            with monitor.suspended():
+                ec = netgen.build(net, rng=rng)
+                edits = netgen.random_edits(ec, rng)
+                enet = refsem.net_of(ec)
+            CUR['case'] = dict(case, edits_applied=edits)
+            drive(ec, enet, ctx, rng)
+            ctx.count('edited_circuits')
+            for e in edits:
+                ctx.count('edit:' + str(e[0]))
+        except Exception as e:
+            ctx.unexpected('evaluation entry points (edited circuit)', e, CUR['case'])
+        CUR['case'] = case
     # non-triviality
     outs, ns = refsem.output_ints(net)
     full = (1 << ns) - 1
